@@ -212,6 +212,60 @@ SEEDS = {
         detected_by={"C34": "reps_expansion_samples1: number of SequenceData = sum of reps (Lindblad fork added)"},
         strengthened="first detection was accidental (AttributeError: the stub PulserData lacked has_lindblad_noise). The stub now carries every attribute the constructor sets and the case forks over Lindblad noise, so the counting clause fails",
     ),
+    # ---- second round: a different change for properties with a large surface --------------------
+    "C02b": dict(
+        property="C02",
+        change="timestep_complete rebuilds the Hamiltonian with make_H from the PREVIOUS interaction matrix (assignment moved after make_H)",
+        needs="an SLM mask ending before the end of the sequence with a masked, interacting atom",
+        detected_by={"C02": "drive_update_rydberg_n2_steps2_reorder_slm: MPO during step 1 = P H(step 1) P^dag"},
+    ),
+    "C03b": dict(
+        property="C03",
+        change="MPSBackendImpl.__init__ no longer permutes phi with the qubit ordering (omega and delta still are)",
+        needs="reordering on with a non-identity ordering and atom-dependent phases",
+        detected_by={"C03": "mpo_permuted_rydberg_n3: MPO during step 0 = P H(step 0) P^dag", "C02": "drive_update_*_reorder_slm", "C25": "mps_bad_atoms_n3_d2_reorder"},
+    ),
+    "C10b": dict(
+        property="C10",
+        change="MPS.__rmul__/__imul__ always multiply the scalar into factor 0 instead of the declared centre",
+        needs="a scale while the declared centre is a site > 0, followed by norm()/expect_batch",
+        detected_by={"C10": "sequence_n2_d2_2_len2: scaling leaves the factor of site j (not the declared centre) unchanged (added)", "C11": "mps_scale_norm: only the centre factor is scaled"},
+        strengthened="C10 MISSED it at first (C11 caught it): orthonormality is outside C10's claim, but its preservation under scaling is not. The sequence case now checks that a scale leaves every non-centre factor unchanged (canary added)",
+    ),
+    "C11b": dict(
+        property="C11",
+        change="MPS.expect_batch leftward walk takes the QR of `.mH` instead of `.mT` and still contracts with the un-conjugated R",
+        needs="centre >= 1, complex amplitudes, a bond of dimension >= 2 left of the centre",
+        detected_by={"C11": "mps_expect_batch_entangled_left (added to C11): expect_batch[0] = <psi|O(0)|psi>", "C13": "mps_expect_batch_entangled_left"},
+        strengthened="C11 MISSED it at first and C13 only answered 'inconclusive' (exit 2): the failing run of the REAL code was treated as a disagreement between the real torch and the shim (whose known-factorisation QR stub answers for the code as it should be). vcheck now treats a failing run of the real code on recorded concrete inputs as what it is - a replayed counterexample - and the chi=2 expect_batch cases are part of C11 as well",
+    ),
+    "C12b": dict(
+        property="C12",
+        change="DensityMatrix.overlap computed as einsum('ij,ji->', self, other): Tr(self other) instead of Tr(self^dagger other)",
+        needs="a non-Hermitian `self` (e.g. H @ rho wrapped in a DensityMatrix)",
+        detected_by={"C12": "state_algebra_n2_and_dm_overlap_n2: overlap = tr(R^dagger S) for arbitrary complex matrices"},
+        strengthened="first answer was 'inconclusive' (exit 2): torch.einsum was not modelled by the shim. Explicit-subscript einsum is now modelled",
+    ),
+    "C13b": dict(
+        property="C13",
+        change="energy variance / second moment cache H@H as an attribute of the MPO, which update_H rewrites in place every step: stale H^2 from the second evaluation on",
+        needs="two evaluations on the same MPO object with an in-place update_H between them",
+        detected_by={"C13": "mps_energy_moments_sequence_n2_d2_chi1 (added): evaluation 1: energy second moment = <psi|H(t_1)^2|psi>"},
+        strengthened="MISSED at first: MPS variance/second moment were outside (MPO@MPO compresses through QR/eigh). Added a two-evaluation sequence with zip_right replaced by the exact uncompressed product (declared stub)",
+    ),
+    "C23b": dict(
+        property="C23",
+        change="emu-mps _get_interaction_matrix queries the matrix at target_time instead of the step midpoint",
+        needs="an SLM mask ending inside (t_1/2, t_1]: ignored for the whole first step",
+        detected_by={"C23": "query_times_steps2: emu-mps: step matrix is masked while the step ends before the SLM end", "C02": "drive_update_rydberg_n2_steps2_reorder_slm: MPO during step 0"},
+    ),
+    "C25b": dict(
+        property="C25",
+        change="fill_results normalises lazily, and the dark-atom branch builds the extended state from the live, un-normalised factors",
+        needs="a bad atom and a state whose norm is not 1 (noisy effective evolution)",
+        detected_by={"C25": "mps_fill_results_N3_d2_chi2 (added to C25): state handed to callbacks = (psi/norm) with dark atoms in |g>", "C13": "mps_fill_results_N3_d2_chi2"},
+        strengthened="C25 MISSED it at first (C13 caught it): the fill_results cases are now part of C25 as well",
+    ),
     "C25": dict(
         property="C25",
         change="bad-atom mask mapped to the sites with the inverse permutation",
